@@ -184,7 +184,44 @@ func (n *Node) Bytes(parentNS string) []byte {
 	return b.Bytes()
 }
 
+// Raw builds a node that serialises as the given bytes verbatim (used to
+// embed stream-level constructs or malformed XML inside generated input).
+func Raw(s string) *Node { return &Node{Name: xml.Name{Space: "#", Local: "raw"}, Text: s} }
+
+// IsRaw reports whether n is a Raw node.
+func (n *Node) IsRaw() bool { return n.Name.Space == "#" && n.Name.Local == "raw" }
+
+// TokensBeforeRaw returns the tokens of n in document order up to the first
+// Raw node (exclusive) and whether a Raw node was found.
+func (n *Node) TokensBeforeRaw() ([]xml.Token, bool) {
+	var out []xml.Token
+	found := n.tokensBeforeRaw(&out)
+	return out, found
+}
+
+func (n *Node) tokensBeforeRaw(out *[]xml.Token) bool {
+	if n.IsRaw() {
+		return true
+	}
+	if n.IsText() {
+		*out = append(*out, xml.CharData(n.Text))
+		return false
+	}
+	*out = append(*out, xml.StartElement{Name: n.Name, Attr: append([]xml.Attr(nil), n.Attr...)})
+	for _, c := range n.Children {
+		if c.tokensBeforeRaw(out) {
+			return true
+		}
+	}
+	*out = append(*out, xml.EndElement{Name: n.Name})
+	return false
+}
+
 func (n *Node) write(b *bytes.Buffer, parentNS string) {
+	if n.IsRaw() {
+		b.WriteString(n.Text)
+		return
+	}
 	if n.IsText() {
 		_ = xml.EscapeText(b, []byte(n.Text))
 		return
